@@ -34,6 +34,12 @@ def tz(m):
 
 DATES = [None, datetime.datetime(2024, 1, 31, 0, 0, 0, tzinfo=UTC), datetime.datetime(2023, 12, 31, 23, 30, 0, 5000, tzinfo=tz(-330)), datetime.datetime(2024, 3, 1, 0, 0, 1, tzinfo=tz(840)),
          datetime.datetime(2024, 2, 29, 23, 45, 0, tzinfo=tz(-30))]
+# two dates in ONE zone object whose offset depends on the date (what zoneinfo / dateutil zones are): a winter start and a
+# summer end in one request, and in requests composed one after the other
+from vf.universe import SeasonTZ  # noqa: E402
+
+_NY = SeasonTZ(-300, -240, ("EST", "EDT"))
+DATES += [datetime.datetime(2024, 1, 15, 9, 30, 0, tzinfo=_NY), datetime.datetime(2024, 7, 15, 9, 30, 0, tzinfo=_NY)]
 PRINTABLE = "".join(chr(c) for c in range(33, 127))  # without the blank, which is put in the middle below
 BANKID = "123456789"
 BROKERID = "broker.example.com"
@@ -58,7 +64,7 @@ CONFIG_SPACE = [
     ("clientuid", ["CLIENT-UID-0123456789", None]),  # set by default: the version-103 threshold is then two deviations away
     ("app", [None, ("MYAPP", "0001")]),
     ("language", [None, "FRA"]),
-    ("creds", ["plain", "printable"]),
+    ("creds", ["plain", "printable", "latin"]),
     # the process's logging configuration (ofxget -vv, or a host application's): what is composed must not depend on it
     ("loglevel", [None, "DEBUG"]),
     # how the configuration reaches the client: constructor arguments, or plain attribute assignment (what the constructor
@@ -113,7 +119,7 @@ def configs(k):
 def make_client(cfg, seed):
     from ofxtools.Client import OFXClient
 
-    user, pw = ("jdoe", "t0ps3kr1t") if cfg["creds"] == "plain" else credentials(seed)
+    user, pw = ("jdoe", "t0ps3kr1t") if cfg["creds"] == "plain" else (("j\u00fcrgen-\u00f1", "p\u00e4ssw\u00f6rd-\u00e9") if cfg["creds"] == "latin" else credentials(seed))
     kw = dict(userid=user, version=cfg["version"], prettyprint=cfg["pretty"], close_elements=cfg["close"], bankid=BANKID, brokerid=BROKERID)
     if cfg["fi"]:
         kw["org"], kw["fid"] = cfg["fi"]
